@@ -123,7 +123,8 @@ UNSAFE_ALLOWED = {
     'core::slice::<impl [T]>::get_unchecked_mut',
     # raw-pointer spellings of read / write / drop through a MaybeUninit::as_ptr()/as_mut_ptr() pointer
     'core::ptr::const_ptr::<impl *const T>::read', 'core::ptr::mut_ptr::<impl *mut T>::read', 'core::ptr::read',
-    'core::ptr::drop_in_place', 'core::ptr::mut_ptr::<impl *mut T>::write', 'core::ptr::write',
+    'core::ptr::drop_in_place', 'core::ptr::mut_ptr::<impl *mut T>::drop_in_place',
+    'core::ptr::mut_ptr::<impl *mut T>::write', 'core::ptr::write',
     'core::ptr::mut_ptr::<impl *mut T>::add', 'core::ptr::const_ptr::<impl *const T>::add',
     'core::ptr::copy_nonoverlapping', 'core::intrinsics::copy_nonoverlapping', 'core::ptr::copy',
     'core::mem::maybe_uninit::MaybeUninit::<T>::assume_init',
@@ -136,7 +137,8 @@ TAME_PASS = {'core::ptr::mut_ptr::<impl *mut T>::add', 'core::ptr::const_ptr::<i
              'core::ptr::mut_ptr::<impl *mut T>::cast', 'core::ptr::const_ptr::<impl *const T>::cast'}
 PTR_CASTS = {'core::ptr::mut_ptr::<impl *mut T>::cast', 'core::ptr::const_ptr::<impl *const T>::cast'}
 TAME_SINKS = {'core::ptr::const_ptr::<impl *const T>::read', 'core::ptr::mut_ptr::<impl *mut T>::read', 'core::ptr::read',
-              'core::ptr::drop_in_place', 'core::ptr::mut_ptr::<impl *mut T>::write', 'core::ptr::write',
+              'core::ptr::drop_in_place', 'core::ptr::mut_ptr::<impl *mut T>::drop_in_place',
+              'core::ptr::mut_ptr::<impl *mut T>::write', 'core::ptr::write',
               'core::ptr::copy_nonoverlapping', 'core::intrinsics::copy_nonoverlapping', 'core::ptr::copy'}
 
 
